@@ -3,7 +3,7 @@
 # usage: tools/mutmatrix.sh [ids...]   -> /tmp/mutmatrix/<id>.log ; summary on stdout
 cd /verif
 mkdir -p /tmp/mutmatrix
-ids=${@:-$(ls seeded)}
+ids=${@:-$(ls -d seeded/*/ | xargs -n1 basename)}
 run_one() {
   id=$1; lane=$2
   wt=/tmp/wt_mm_$lane
